@@ -148,7 +148,13 @@ class YPPrologCompiler:
     def pop_bound_vars(self):
         self.bound_vars.pop()
     def filter_free_variables(self,variables):
-        return list(set([ v for v in variables if v not in self.bound_vars[-1] ]))
+        # keep the order of first occurrence, so that the generated code does not depend on
+        # the iteration order of a set of strings (which changes with the hash seed)
+        free_variables = []
+        for v in variables:
+            if v not in self.bound_vars[-1] and v not in free_variables:
+                free_variables.append(v)
+        return free_variables
     def compile_program(self,program):
         funcs = []
         for func,clauses in program.items():
